@@ -96,7 +96,7 @@ impl Sut {
         let key = K::probe(k);
         match self {
             Sut::Unsync(c) => c.get(&key).map(|v| v.id),
-            Sut::Sync(c) => c.get(&key).map(|v| v.id),
+            Sut::Sync(c) => sync_get(c, &key),
         }
     }
 
@@ -108,10 +108,15 @@ impl Sut {
         }
     }
 
+    /// One full iteration, through one of the public ways of iterating (chosen by the
+    /// number of iterations this thread has done so far, so that a trace determines it).
     pub fn iter(&mut self) -> Vec<(u16, u32)> {
         match self {
-            Sut::Unsync(c) => c.iter().map(|(k, v)| (k.k, v.id)).collect(),
-            Sut::Sync(c) => c.iter().map(|e| (e.key().k, e.value().id)).collect(),
+            Sut::Unsync(c) => match next_variant() % 2 {
+                0 => c.iter().map(|(k, v)| (k.k, v.id)).collect(),
+                _ => crate::types::parse_debug_map(&format!("{:?}", c)),
+            },
+            Sut::Sync(c) => sync_iter(c),
         }
     }
 
@@ -204,8 +209,18 @@ impl Sut {
         let kf = |k: &K| k.k as u64;
         let vf = |v: &V| v.id as u64 | ((v.weight as u64) << 32);
         let mut s = match self {
-            Sut::Unsync(c) => c.verif_snapshot(base, &kf, &vf),
-            Sut::Sync(c) => c.verif_snapshot(base, &kf, &vf),
+            Sut::Unsync(c) => {
+                let mut s = c.verif_snapshot(base, &kf, &vf);
+                s.entry_count = c.entry_count();
+                s.weighted_size = c.weighted_size();
+                s
+            }
+            Sut::Sync(c) => {
+                let mut s = c.verif_snapshot(base, &kf, &vf);
+                s.entry_count = c.entry_count();
+                s.weighted_size = c.weighted_size();
+                s
+            }
         };
         decode(&mut s, weigher);
         s
@@ -220,8 +235,58 @@ pub fn sync_snapshot(c: &SyncCache, base: std::time::Instant, weigher: bool) -> 
     let kf = |k: &K| k.k as u64;
     let vf = |v: &V| v.id as u64 | ((v.weight as u64) << 32);
     let mut s = c.verif_snapshot(base, &kf, &vf);
+    // what the oracles compare is what the public getters report
+    s.entry_count = c.entry_count();
+    s.weighted_size = c.weighted_size();
     decode(&mut s, weigher);
     s
+}
+
+thread_local! {
+    static VARIANT: std::cell::Cell<u32> = const { std::cell::Cell::new(0) };
+}
+
+/// Per-thread counter that rotates through the equivalent public entry points.
+fn next_variant() -> u32 {
+    VARIANT.with(|v| {
+        let x = v.get();
+        v.set(x.wrapping_add(1));
+        x
+    })
+}
+
+/// Resets the rotation (start of a run / of a thread's program).
+pub fn reset_variants() {
+    VARIANT.with(|v| v.set(0));
+}
+
+/// `get`, every fifth time through the deprecated alias `get_if_present`.
+pub fn sync_get(c: &SyncCache, key: &K) -> Option<u32> {
+    if next_variant() % 5 == 4 {
+        #[allow(deprecated)]
+        let r = c.get_if_present(key).map(|v| v.id);
+        r
+    } else {
+        c.get(key).map(|v| v.id)
+    }
+}
+
+/// One full iteration of the concurrent cache: `iter()` with `key()/value()`, `&cache` as
+/// `IntoIterator` with `pair()` / `Deref`, or the `Debug` rendering.
+pub fn sync_iter(c: &SyncCache) -> Vec<(u16, u32)> {
+    match next_variant() % 3 {
+        0 => c.iter().map(|e| (e.key().k, e.value().id)).collect(),
+        1 => {
+            let mut out = Vec::new();
+            for e in c {
+                let (k, v) = e.pair();
+                let via_deref: &V = &e;
+                out.push((k.k, v.id.max(via_deref.id)));
+            }
+            out
+        }
+        _ => crate::types::parse_debug_map(&format!("{:?}", c)),
+    }
 }
 
 /// Splits the (value id, raw weight) pair the snapshot closure packed into `value`:
